@@ -107,7 +107,7 @@ def run(rep, tier, seed, keep=False):
                 if sep:
                     add('splitJoin', '$s.split($sep).join($sep)', s, res(eng.ev('$s.split($sep).join($sep)', s=s, sep=sep)), sep=S(sep))
             add('split', '$s.split()', s, res(eng.ev('$s.split()', s=s)), sep=['n'], a=-1)
-            for chars in (None, ' ', 'a', 'a ', 'bA'):
+            for chars in (None, ' ', 'a', 'a ', 'bA', ''):
                 for fn, txt in (('trim', '$s.trim($c)'), ('trimLeft', '$s.trimLeft($c)'), ('trimRight', '$s.trimRight($c)'), ('norm', '$s.norm($c)')):
                     add(fn, txt, s, res(eng.ev(txt, s=s, c=chars)), chars=S(chars))
                 for tr in (True, False):
@@ -198,6 +198,8 @@ def run(rep, tier, seed, keep=False):
                         add('rreplace', "%s.replace(%r, '[\\g<0>]', %d)" % (pd, s, k), s, res(eng.ev(rx + ".replace($s, '[\\\\g<0>]', $k)", k=k, **kw)), ms=ms, a=k)
                         add('replaceBy', "%s.replaceBy(%r, '<' + $.value + '>', %d)" % (pd, s, k), s,
                             res(eng.ev(rx + ".replaceBy($s, '<' + $.value + '>', $k)", k=k, **kw)), ms=ms, a=k)
+                        add('replaceByStart', "%s.replaceBy(%r, '<' + str($.start) + '>', %d)" % (pd, s, k), s,
+                            res(eng.ev(rx + ".replaceBy($s, '<' + str($.start) + '>', $k)", k=k, **kw)), ms=ms, a=k)
         rej = []
         skipped = 0
         chunk = 60000
